@@ -141,6 +141,11 @@ func runC15(c *Ctx) {
 	// reaches: every child is walked (C08.R3 / C09.R5)
 	if m := newWalkerModel(p); len(m.lost) == 0 {
 		walkCoverage(c, r1, m)
+		// ... and only for the values that carry their expected type: the links are the lookups the specification names,
+		// stored whenever they can be resolved (C09.R2/R3)
+		written := walkerWrites(m)
+		c09Provenance(c, r1, m, written)
+		c09Guards(c, r1, m, written)
 	}
 
 	r2 := c.Rule("R2", "nil safety of argument resolution for validated documents", 3)
